@@ -498,6 +498,16 @@ func OracleC03(c, res string) string {
 		if f[0] == "loadx" {
 			// the generator states the verdict of the semantics; the oracle's interpreter must agree with it
 			t, ok := RefParse(string(lib.ParseBytes(f[1])))
+			if f[2] == "parse" {
+				// intended verdict: outside the grammar
+				if ok {
+					return "generator: loadx text with intended verdict parse is inside the grammar"
+				}
+				if res != "err parse" {
+					return "text outside the grammar (non-ASCII rune or invalid UTF-8 where the grammar has ASCII terminals) was not rejected by the parser: " + r[0] + " " + strings.Join(r[1:], " ")
+				}
+				return ""
+			}
 			if !ok {
 				return "generator: loadx text is outside the grammar"
 			}
